@@ -48,7 +48,14 @@ TREES = [
 
 
 # ============================================================================ generation
-def _task(rng, gid, seed, tier, mode=None, root=None, graft=None, dy=False, well=False, comp=False):
+ONESIDED_TREES = [
+    {"t": [3, 2, 4], "q": [2, 3, 2, 2]},
+    {"t": [2, 5, 3], "q": [2, 2, 3, 2], "w": [5, 6]},
+    {"q": [3, 2, 2, 3], "t": [4, 2, 3], "b": [4]},
+]
+
+
+def _task(rng, gid, seed, tier, mode=None, root=None, graft=None, dy=False, well=False, comp=False, onesided=None):
     T = 6 if tier == "quick" else rng.choice([6, 6, 10, 20])
     sched = rng.random() < 0.25
     c = {
@@ -85,6 +92,26 @@ def _task(rng, gid, seed, tier, mode=None, root=None, graft=None, dy=False, well
         c["skip_dim_gt"] = 4096
         c["root"] = "newton"
         c["mat_eps"] = rng.choice([1e-6, 1e-4, 1e-2])
+    if onesided is not None:
+        # one-sided preconditioning of rank-3 / rank-4 leaves whose dims survive merging: INPUT preconditions rank-1 axes
+        # (exponent 2(rank-1)), OUTPUT one axis (exponent 2); documented exponent, no override, preconditioned from an early step on
+        k = onesided
+        c["ptype"] = "INPUT" if k % 2 == 0 else "OUTPUT"
+        c["shapes"] = ONESIDED_TREES[k % len(ONESIDED_TREES)]
+        c["override"] = 0
+        c["start"] = k % 3
+        c["best_effort"] = (k % 4 == 3)
+        c["merge_block"] = 1          # nothing can merge even when best_effort_shape_interpretation is on
+        c["block"] = 2 if k % 4 == 1 else 128
+        c["skip_rank_lt"] = rng.choice([0, 1])
+        c["skip_dim_gt"] = 4096
+        c["mat_eps"] = rng.choice([1e-2, 3e-2, 1e-3])
+        c["rel_eps"] = True
+        c["si"] = 1
+        c["pi"] = rng.choice([1, 1, 2])
+        c["T"] = max(c["T"], 6)
+        c["zero"] = []
+        c["grad"] = {"kind": "randn", "scale": rng.choice([1.0, 1.0, 1e-2]), "seed": seed * 100003 + gid}
     if c["graft"].startswith("RMSPROP"):
         c["clip"] = rng.choice([None, None, 0.5, 2.0])
     if well:
@@ -135,6 +162,11 @@ def gen_tasks(tier, seed):
             gid += 1
             tasks.append(_task(rng, gid, seed, tier, root=("eigh" if k % 2 == 0 else "newton"), well=True,
                                mode=("sharded" if k % 5 == 4 else "replicated")))
+        # one-sided preconditioner types on rank-3 / rank-4 leaves (documented exponent 2 x #preconditioned axes)
+        for k in range(8):
+            gid += 1
+            tasks.append(_task(rng, gid, seed, tier, onesided=k, mode=("sharded" if k in (2, 3, 6) else "replicated"),
+                               root=("eigh" if k in (1, 2, 4, 7) else "newton")))
         # compressed (low-rank packed) preconditioners: the compressed branch of _precondition_block
         for k in range(8):
             gid += 1
@@ -929,7 +961,9 @@ def const_stage(ctx):
 
 
 def _tag(t):
-    return f"{t['mode']}.{t['root']}" + (".compressed" if t.get("comp") else "") + (".x64" if t.get("x64") else "") + (".dyadic" if t["grad"]["kind"] == "dyadic" else "")
+    return f"{t['mode']}.{t['root']}" + (".compressed" if t.get("comp") else "") + \
+        (".onesided_rank34" if (t["ptype"] != "ALL" and t["override"] == 0 and not t["best_effort"] or t.get("merge_block") == 1)
+         and any(len(s_) >= 3 for s_ in t["shapes"].values()) and t["ptype"] != "ALL" else "") + (".x64" if t.get("x64") else "") + (".dyadic" if t["grad"]["kind"] == "dyadic" else "")
 
 
 def _dev_filter(ctx, tasks):
@@ -937,7 +971,8 @@ def _dev_filter(ctx, tasks):
     only = os.environ.get("C02_ONLY")
     if not cap and not only:
         return tasks
-    keep = [t for t in tasks if not only or t["mode"] in only.split(",") or ("comp" in only.split(",") and t.get("comp"))]
+    keep = [t for t in tasks if not only or t["mode"] in only.split(",") or ("comp" in only.split(",") and t.get("comp"))
+            or ("onesided" in only.split(",") and t.get("merge_block") == 1)]
     if cap:
         keep = keep[:int(cap)]
     ctx.notes.append(f"DEV FILTER ACTIVE (C02_ONLY={only}, C02_MAXTASKS={cap}): {len(keep)} of {len(tasks)} tasks run")
